@@ -628,11 +628,12 @@ class Converter:
         result = self._generate_unique_name(target)
         return self._emit1([result], callee, args, attrs)
 
-    def _translate_opt_expr(self, node: ast.expr) -> ir.Value | None:
+    def _translate_opt_expr(self, node: ast.expr | None) -> ir.Value | None:
         """Translation of an expression where "None" is permitted (eg., for an optional argument).
-        None is represented as a Constant in Python 3.9+.
+        None is represented as a Constant in Python 3.9+; an optional input that was
+        omitted (a later one being given by keyword) is None itself.
         """
-        if isinstance(node, ast.Constant) and (node.value is None):
+        if node is None or (isinstance(node, ast.Constant) and (node.value is None)):
             return None
         return self._translate_expr(node)
 
